@@ -73,16 +73,15 @@ def jsPlain (c : Nat) : Bool :=
 
 /-- body of a JS string literal: plain bytes and complete escape sequences only
     (`\\`, `\/`, `\t`, `\n`, `\f`, `\r`, `\uXXXX`) -/
-def jsStrBodyOk : Nat → Str → Bool
-  | 0, s => s.isEmpty
-  | _, [] => true
-  | fuel + 1, 92 :: 117 :: a :: b :: c :: d :: rest =>
-    isHex a && isHex b && isHex c && isHex d && jsStrBodyOk fuel rest
-  | fuel + 1, 92 :: e :: rest => [92, 47, 116, 110, 102, 114].contains e && jsStrBodyOk fuel rest
-  | _ + 1, [92] => false
-  | fuel + 1, c :: rest => jsPlain c && jsStrBodyOk fuel rest
+def jsStrBodyOk : Str → Bool
+  | [] => true
+  | 92 :: 117 :: a :: b :: c :: d :: rest =>
+    isHex a && isHex b && isHex c && isHex d && jsStrBodyOk rest
+  | 92 :: e :: rest => [92, 47, 116, 110, 102, 114].contains e && jsStrBodyOk rest
+  | [92] => false
+  | c :: rest => jsPlain c && jsStrBodyOk rest
 
-def jsStrSafe (s : Str) : Bool := jsStrBodyOk (s.length + 1) s
+def jsStrSafe (s : Str) : Bool := jsStrBodyOk s
 
 /-- the safety predicate of each place -/
 def Chain.safe : Chain → Str → Bool
